@@ -123,6 +123,16 @@ def _ptype(w, t):
         else:
             size = w.el('SizeInBits', children=[w.el('FixedValue', text=str(t['bits']))])
         return w.el('BinaryParameterType', {'name': name}, [w.el('BinaryDataEncoding', children=[size])])
+    if k in ('bin2', 'str2') and t.get('lookups'):
+        lks = []
+        for crit, v in t['lookups']:
+            cm = [_comparison(w, ['cmp'] + list(c)) for c in crit]
+            lks.append(w.el('DiscreteLookup', {'value': v}, [cm[0]] if len(cm) == 1 else [w.el('ComparisonList', children=cm)]))
+        dl = w.el('DiscreteLookupList', children=lks)
+        if k == 'bin2':
+            return w.el('BinaryParameterType', {'name': name}, [w.el('BinaryDataEncoding', children=[w.el('SizeInBits', children=[dl])])])
+        return w.el('StringParameterType', {'name': name}, [
+            w.el('StringDataEncoding', {'encoding': t['encoding']}, [w.el('Variable', {'maxSizeInBits': 64}, children=[dl])])])
     raise ValueError(k)
 
 
